@@ -233,6 +233,8 @@ def essIn (inl : Bool) : Mode → List STok → List InEv
   | .pi e, t :: r =>
     match t with
     | .startTagClosePI => essIn inl (.elem e) r
+    | .startTagClose => essIn inl (.elem e) r          -- a `>` in the data ends the instruction for the lexer
+    | .startTagCloseVoid => essIn inl (.elem e) r
     | _ => essIn inl (.pi e) r
   | .elem e, t :: r =>
     match t with
@@ -248,6 +250,8 @@ def essIn (inl : Bool) : Mode → List STok → List InEv
 def evsOut : Bool → List STok → List Ev
   | _, [] => []
   | true, .startTagClosePI :: r => evsOut false r
+  | true, .startTagClose :: r => evsOut false r
+  | true, .startTagCloseVoid :: r => evsOut false r
   | true, _ :: r => evsOut true r
   | false, .startTagPI n :: r => .pi n :: evsOut true r
   | false, .startTag n :: r => .open n :: evsOut false r
